@@ -151,6 +151,14 @@ CLAIMS["C13"] = {
     "design_ref": "DESIGN.md §3 C13",
 }
 
+CLAIMS["C20"] = {
+    "category": "exploration",
+    "technique": "concurrency stress with hook-injected delays and a rendezvous monitor, logical-clock event log checked against sequential expectations, lock-poison probe, cross-talk tags; ThreadSanitizer build with the decNumber C sources instrumented",
+    "text": "One Arc<ModelEvaluator> per model (regular-expression, numeric and temporal-with-zones decisions, a boxed context using a knowledge model, a decision service; generated graphs with nested decisions, BKM chains, tables and services) is shared by 2, 3, 4, 8 and 16 threads released by a start barrier, each running a seeded permutation of 60-400 calls while the model-evaluator verification hook injects seeded yields / spins / sleeps after the read guards are taken; every call is logged against one logical clock and its result compared with the sequential result of the same (invocable, input); each repetition ends with rendezvous rounds in which the hook holds K = thread-count evaluations inside the evaluator simultaneously (impossible if any write lock were taken on the path), then the nine locks are probed for poison and the hook payloads for another call's tag. The same workload runs on a ThreadSanitizer build (std rebuilt, C sources instrumented); reports with dmntk or decNumber frames are violations. Quick 40 repetitions (~45k call events, ~280k overlapping pairs, concurrency up to 16), thorough 1500.",
+    "note": "Only the interleavings that occurred are covered. Termination is bounded progress (gate 20 s, repetition 180 s, re-run alone 300 s). If the TSan build is unavailable the check says so and decides on the dbg build only.",
+    "design_ref": "DESIGN.md §3 C20",
+}
+
 NOT_YET = "check not built yet in this round (work in progress; see DESIGN.md for the planned monitor)"
 
 
